@@ -504,7 +504,7 @@ var checks = map[string]Check{
 	},
 	"C14": {
 		Level:       "model_checking",
-		Rule:        "race mode: the scenario binary is built with -race; the scheduler's hand-off is invisible to the detector and the shims publish exactly the happens-before edges of the real primitives, so every explored schedule is checked for data races exactly; scenarios: 2-3 threads each performing one documented-concurrent operation {Call, AsyncCall, Push, SetID, Swap store/load, Close, remote Close, GetSession, RangeSession, CountSession, age setters/getters, Health/ID, server-side Call} on shared sessions/peers; 21 operation pairs (quick) / all pairs and selected triples (thorough) x all interleavings up to the preemption bound; raw protocol plus a thrift-binary call/call pair; plus Dial with redial enabled against a server that drops the new connection at once while another goroutine enumerates, counts or pushes on the peer's sessions",
+		Rule:        "race mode: the scenario binary is built with -race; the scheduler's hand-off is invisible to the detector and the shims publish exactly the happens-before edges of the real primitives, so every explored schedule is checked for data races exactly; scenarios: 2-3 threads each performing one documented-concurrent operation {Call, AsyncCall, Push, SetID, Swap store/load, Close, remote Close, GetSession, RangeSession, CountSession, age setters/getters, Health/ID, server-side Call} on shared sessions/peers; 21 operation pairs (quick) / all pairs and selected triples (thorough) x all interleavings up to the preemption bound; raw protocol plus three thrift-binary pairs (both directions at once); plus Dial with redial enabled against a server that drops the new connection at once while another goroutine enumerates, counts or pushes on the peer's sessions",
 		Assumptions: append([]string{"a race report is attributed to the schedule in which it first appears (the detector reports each racing pair once per process); reports produced while an execution is being torn down are ignored"}, baseAssumptions...),
 		Jobs: func(tier string) []Job {
 			pairs := [][]string{{"call", "call"}, {"call", "push"}, {"call", "close"}, {"call", "rclose"}, {"call", "setid"}, {"call", "swap"}, {"call", "srvcall"}, {"push", "close"}, {"setid", "lookup"}, {"setid", "range"}, {"setid", "count"}, {"setid", "setid"}, {"swap", "swap"}, {"close", "rclose"}, {"close", "close"}, {"close", "lookup"}, {"close", "range"}, {"async", "close"}, {"ages", "call"}, {"health", "close"}, {"srvcall", "rclose"}}
@@ -533,9 +533,16 @@ var checks = map[string]Check{
 				}
 				js = append(js, j)
 			}
-			t := sched("c14_soup", "proto=thrift,a=call,b=call", 0, 2)
-			t.Race = true
-			js = append(js, t)
+			for _, pr := range []string{"a=call,b=call", "a=call,b=srvcall", "a=push,b=srvcall"} {
+				t := sched("c14_soup", "proto=thrift,"+pr, 0, 2)
+				t.Race = true
+				if tier == "thorough" {
+					t.Bound = 1
+					t.Shards = 8
+					t.Budget = 120
+				}
+				js = append(js, t)
+			}
 			// Dial on a redial-enabled peer, the server dropping the fresh connection, sessions enumerated concurrently
 			for _, prm := range []string{"b=range,after=none", "b=count,after=none", "b=push,after=none"} {
 				d := sched("c14_dial", prm, 0, 2)
